@@ -1140,6 +1140,7 @@ func main() {
 	p("Definition platform_option_names : list bytes := %s.", coqBytesList(optVals))
 	// ---- option constructor inventory
 	var ctorNames []string
+	ctorFile := map[string]string{}
 	matches, _ := filepath.Glob(filepath.Join(repo, "driver/options/*.go"))
 	sort.Strings(matches)
 	for _, m := range matches {
@@ -1150,6 +1151,7 @@ func main() {
 		for _, d := range load(rel).f.Decls {
 			if f, ok := d.(*ast.FuncDecl); ok && f.Recv == nil && strings.HasPrefix(f.Name.Name, "With") {
 				ctorNames = append(ctorNames, f.Name.Name)
+				ctorFile[f.Name.Name] = rel
 			}
 		}
 	}
@@ -1359,6 +1361,24 @@ func main() {
 			decisionFunc("driver/generic/sendcommand.go", "Driver.sendCommand"))
 		fmt.Fprintf(&sw, "(* driver/network/sendconfig.go Driver.SendConfig *)\nDefinition send_config_code : list dstmt :=\n  %s.\n",
 			decisionFunc("driver/network/sendconfig.go", "Driver.SendConfig"))
+		// driver/options/*.go (C19): the closure every option constructor returns, statement by statement
+		var oc []string
+		for _, n := range ctorNames {
+			oc = append(oc, fmt.Sprintf("  (%s,\n   %s)", q(n), optionClosure(ctorFile[n], n)))
+		}
+		fmt.Fprintf(&sw, "(* driver/options/*.go (C19): the closures *)\nDefinition option_code : list (string * list dstmt) := [\n%s].\n", strings.Join(oc, ";\n"))
+		// the loops that apply an option list to an object (C19)
+		var ol []string
+		for _, lf := range [][2]string{{"driver/generic/driver.go", "NewDriver"}, {"driver/network/driver.go", "NewDriver"}, {"driver/netconf/driver.go", "NewDriver"},
+			{"transport/factory.go", "NewTransport"}, {"transport/transport.go", "NewArgs"}, {"transport/transport.go", "NewSSHArgs"},
+			{"transport/transport.go", "NewTelnetArgs"}, {"channel/channel.go", "NewChannel"}} {
+			loops := optionLoops(lf[0], lf[1])
+			if len(loops) != 1 {
+				die("%s %s: %d range loops, expected the one option loop", lf[0], lf[1], len(loops))
+			}
+			ol = append(ol, fmt.Sprintf("  (%s,\n   %s)", q(lf[0]+" "+lf[1]), loops[0]))
+		}
+		fmt.Fprintf(&sw, "(* the option loops of the constructors (C19) *)\nDefinition option_loops : list (string * dstmt) := [\n%s].\n", strings.Join(ol, ";\n"))
 		// util/queue.go (C20): every method, statement by statement
 		var qents []string
 		for _, fn := range []string{"NewQueue", "Queue.Requeue", "Queue.Enqueue", "Queue.Dequeue", "Queue.DequeueAll", "Queue.getDepth", "Queue.GetDepth"} {
